@@ -350,9 +350,6 @@ func (l *listener) Listen() error {
 		return err
 	}
 
-	if taddr.Port == 0 {
-		l.anon = true
-	}
 	if tlist, err := net.ListenTCP("tcp", taddr); err != nil {
 		return err
 	} else if l.iswss {
@@ -363,6 +360,10 @@ func (l *listener) Listen() error {
 	l.pending = nil
 	l.running = true
 	l.bound = l.listener.Addr().(*net.TCPAddr)
+	if taddr.Port == 0 {
+		// only now is there a bound address for Address() to report
+		l.anon = true
+	}
 
 	l.htsvr = &http.Server{Addr: l.url.Host, Handler: l.mux}
 	htsvr, lis := l.htsvr, l.listener
